@@ -116,6 +116,8 @@ def render_type(t, defined=None) -> str:
         if defined is not None and t[1] not in defined:
             return repr(t[1])
         return t[1]
+    if k == "acls":
+        return "AUX." + t[1]  # same-named class living in the family's second module
     if k == "gen":
         return f"{t[1]}[" + ", ".join(render_type(x, defined) for x in t[2]) + "]"
     if k == "tv":
@@ -144,6 +146,8 @@ def render_value(v) -> str:
         return "{" + ", ".join(f"{kk!r}: {render_value(x)}" for kk, x in v[1]) + "}"
     if k == "o":
         return f"{v[1]}(" + ", ".join(f"{n}={render_value(x)}" for n, x in v[2]) + ")"
+    if k == "ao":
+        return f"AUX.{v[1]}(" + ", ".join(f"{n}={render_value(x)}" for n, x in v[2]) + ")"
     if k == "nt":
         return f"{v[1]}(" + ", ".join(render_value(x) for x in v[2]) + ")"
     raise ValueError(v)
@@ -284,6 +288,15 @@ def render_class(c, defined=None, strip_lazy=False, twin_dialect=None, fam=None)
     return "\n".join(lines) + "\n"
 
 
+def render_aux(spec) -> str:
+    """source of the family's second module: classes whose bare names equal
+    names in the main module (api_v1.Item / api_v2.Item in real projects)"""
+    src = PRELUDE
+    for c in spec.get("aux", []):
+        src += render_class(c)
+    return src
+
+
 def render_prelude(spec) -> str:
     src = PRELUDE
     for d in spec.get("dialects", []):
@@ -333,6 +346,7 @@ class Fam:
                 self.order.append(c["name"])
                 self.chunk_of[c["name"]] = ci
         self.dialects = {d["name"]: d for d in spec.get("dialects", [])}
+        self.aux = {c["name"]: c for c in spec.get("aux", [])}
 
     def cls(self, name):
         return self.classes[name]
